@@ -295,10 +295,14 @@ func (fc *funcContext) translateExpr(expr ast.Expr) *expression {
 				return fc.formatExpr("new %1s(-%2h, -%2l)", fc.typeName(t), e.X)
 			case isComplex(basic):
 				return fc.formatExpr("new %1s(-%2r, -%2i)", fc.typeName(t), e.X)
-			case isUnsigned(basic):
+			case isInteger(basic):
+				// Negation may leave the range of the type (unsigned operands, or the
+				// smallest value of a signed type), so the result has to wrap around.
 				return fc.fixNumber(fc.formatExpr("-%e", e.X), basic)
 			default:
-				return fc.formatExpr("-%e", e.X)
+				// Parenthesize, so that the operand of an enclosing negation can't be
+				// glued to it and form a decrement operator.
+				return fc.formatParenExpr("-%e", e.X)
 			}
 		case token.XOR:
 			if is64Bit(basic) {
